@@ -239,11 +239,13 @@ impl MultiRecordLog {
             };
             num_bytes_written += self.record_log_writer.write_record(record)?;
         }
-        if num_bytes_written > 0 {
-            // We need to fsync here! We are remove files from the FS
-            // so we need to make sure our empty queue positions are properly persisted.
-            self.persist(PersistAction::FlushAndFsync)?;
-        }
+        // We need to fsync here! We are remove files from the FS
+        // so we need to make sure our empty queue positions are properly persisted.
+        //
+        // This must happen even if no position was recorded: records which supersede the
+        // content of the files about to be removed (e.g. the truncate record that made them
+        // useless) may still be sitting in the write buffer or in the page cache.
+        self.persist(PersistAction::FlushAndFsync)?;
         Ok(num_bytes_written)
     }
 
